@@ -230,7 +230,8 @@ func (e *rcEnv) finalRelease() {
 			continue
 		}
 		rel := vsched.Ctr(rcRel0 + i)
-		if valOf(i) == cur && (vsched.Ctr(rcHeld) > 0 || keepOK) {
+		ctxChanged := vsched.Ctr(rcCtxDone) > vsched.Ctr(rcCtxBg0+i) // a context change began and completed after call i started
+		if valOf(i) == cur && (vsched.Ctr(rcHeld) > 0 || keepOK) && !ctxChanged {
 			if rel != 0 {
 				fail("C08.released-while-current", "value %d is still the target's content but its release function already ran", cur)
 			}
@@ -264,7 +265,34 @@ func init() {
 			T("U1", func() { e.user(1, nilCb, false) })
 			vsched.Settle()
 			e.finalRelease()
+			if vsched.Choose(2) == 1 {
+				// a different (non-nil) context while nothing is referenced: a value kept under
+				// keep-unreferenced was resolved for the old context and must be released
+				e.setContext(context.WithValue(bg, ctxKey{}, 9))
+				vsched.Settle()
+				e.finalRelease()
+			}
 			e.setContext(nil)
+			vsched.Settle()
+			e.finalRelease()
+		},
+	})
+	eng.Register(&eng.Scenario{
+		Name: "refcount-rootcancel", Props: []string{"C09", "C08"}, MustFinish: true, ObsNames: stdObs,
+		Doc:   "RefCount whose root context is cancelled from outside (not through SetContext) while the resolver call is running {value, slow, late, error}: with a context and a held reference the result of that call must still be delivered",
+		Quick: eng.Bounds{PB: 2}, Thorough: eng.Bounds{PB: 4},
+		Body: func() {
+			root, cancel := context.WithCancel(bg)
+			e := newRC2(root, false, firstThen([]int{mValue, mSlow, mLate, mError}[vsched.Choose(4)]))
+			ref := e.rc.AddRef(refCb(0))
+			vsched.CtrSet(rcRefHeld+0, 1)
+			vsched.CtrAdd(rcHeld, 1)
+			T("X", func() { cancel() })
+			vsched.Settle()
+			e.quiescentOracle([]int{0})
+			vsched.CtrAdd(rcHeld, -1)
+			vsched.CtrSet(rcRefHeld+0, 0)
+			ref.Release()
 			vsched.Settle()
 			e.finalRelease()
 		},
